@@ -66,17 +66,19 @@ def _haar_levels(fn, src, o):
 def _fdr(fn, src, o):
     guard = None
     for n in fn.body:
-        if isinstance(n, ast.If) and isinstance(n.test, ast.Compare) and getattr(n.test.left, "id", "") == "M":
+        if isinstance(n, ast.If) and isinstance(n.test, ast.Compare) and getattr(n.test.left, "id", "") == "M" \
+                and isinstance(n.test.ops[0], ast.Lt) and n.body and isinstance(n.body[0], ast.Return):
             guard = n
             break
-    if guard is None or not isinstance(guard.test.ops[0], ast.Lt):
-        raise ValueError("FDRThres: `if M < k: return c` guard not found")
-    o.defn("HAAR_FDR_MIN_M", "Nat", str(int(ast.literal_eval(guard.test.comparators[0]))),
-           "FDRThres: `if M < k` guard (fewer peaks than k -> fixed threshold)")
-    ret = guard.body[0]
-    if not isinstance(ret, ast.Return):
-        raise ValueError("FDRThres: guard does not return")
-    o.defn("HAAR_FDR_SMALL_T", "Rat", f"({int(ast.literal_eval(ret.value))} : Rat)", "FDRThres: threshold returned under the guard")
+    if guard is None:
+        # no `if M < k: return c` any more: the model then never takes the fixed threshold (M < 0 is never true)
+        o.defn("HAAR_FDR_MIN_M", "Nat", "0", "FDRThres: NO `if M < k: return c` guard found in the source")
+        o.defn("HAAR_FDR_SMALL_T", "Rat", "(0 : Rat)", "FDRThres: (no guard)")
+    else:
+        o.defn("HAAR_FDR_MIN_M", "Nat", str(int(ast.literal_eval(guard.test.comparators[0]))),
+               "FDRThres: `if M < k` guard (fewer peaks than k -> fixed threshold)")
+        o.defn("HAAR_FDR_SMALL_T", "Rat", f"({int(ast.literal_eval(guard.body[0].value))} : Rat)",
+               "FDRThres: threshold returned under the guard")
     bumps = []
     for n in ast.walk(fn):
         if isinstance(n, ast.Assign) and getattr(n.targets[0], "id", "") == "T" and isinstance(n.value, ast.BinOp) \
